@@ -913,6 +913,9 @@ func (ft *FuncTr) next(st *State, at *Term, x *ssa.Next) error {
 }
 
 func (ft *FuncTr) ret(st *State, at *Term, x *ssa.Return) error {
+	if err := ft.checkComplete(x.Block(), nil, at); err != nil {
+		return err
+	}
 	var res []SV
 	sig := ft.fn.Signature.Results()
 	for i, r := range x.Results {
